@@ -148,6 +148,20 @@ CLAIMED = {
              'twogrid\'s maxiter+1 limit convention recorded, not judged.',
         technique='TLA+/TLC models of Gauss-Seidel and the iterative drivers + replay with scripted callbacks; numeric predicates on TLC-generated hierarchical spaces',
         design_ref='3 C11'),
+    'C06': dict(
+        text='spec/VFormGen.tla is a stack machine over the vform grammar (types scalar / differentiable scalar / vector / matrix) '
+             'from which TLC enumerates all well-typed programs to a token bound and samples longer ones; spec/VFormIR.tla gives '
+             'every node kind of the library\'s expression DAG its meaning over GF(32749) independently of the library (chain rule '
+             'for physical derivatives incl. the geometry-Hessian term and the space-time splitting, measures, normals, tensor '
+             'nodes, variables and symmetric Hessian packing; builtin functions uninterpreted) plus the abstract denotation of a '
+             'token program with 1-jets for product/quotient rules. For every form TLC checks abstract denotation == raw DAG == '
+             'finalized program in K random environments and replays the emission order (precompute, kernel) as a '
+             'def-before-use state machine. No compilation.',
+        note='Polynomial/rational identity testing with K = 3 (4) random environments over GF(32749) rather than an exhaustive '
+             'integer grid; about 1.5k forms per quick run (tens of thousands thorough), not 1e5; dyadic constants only (float '
+             'constant folding must be exact); forms the library rejects with an explicit error are not cases.',
+        technique='TLA+ grammar state machine (VFormGen.tla) + TLA+ semantics of the IR over GF(p) (VFormIR.tla): TLC evaluates denotation, raw DAG and finalized program exported from the real code and compares',
+        design_ref='3 C06'),
 }
 
 NOT_BUILT = 'specification module not built yet (see DESIGN.md section 6); not claimed with a weaker technique'
